@@ -66,7 +66,7 @@ def gen(ctx):
                 if src == "rperr50":
                     cf["rperr"] = rng.choice([1, 2, 4, 50, 52])
                     cf["file"] = pic
-                nreq = int(1.3 * (size // limit)) + 10
+                nreq = int(2.8 * (size // limit)) + 10
                 labels = ["D0", "a1:" + hexs(URI)]
                 other = 1
                 for k in range(nreq):
@@ -81,7 +81,12 @@ def gen(ctx):
                         labels.append("t" + str(rng.choice([50, 101])))
                     labels += [rng.choice(["D0", "D0", "D0", "D9", "D4097"])]
                 labels += L.flush(other + 2)
-                c = L.conf(emb=cf["emb"], mime=cf["mime"], file=cf["file"], norp=cf["norp"], limit=limit, fileack=cf["fileack"], rperr=cf["rperr"])
+                # the chunk limit in force may change between requests (a concurrent binarylimit, a server returning short chunks)
+                lim = limit
+                if rng.random() < 0.4 and limit > 1:
+                    lim = ",".join(str(x) for x in [limit, max(1, limit // 2), limit, max(1, limit - 1), min(limit * 2, 8192)])
+                    cf["limit"] = lim
+                c = L.conf(emb=cf["emb"], mime=cf["mime"], file=cf["file"], norp=cf["norp"], limit=lim, fileack=cf["fileack"], rperr=cf["rperr"])
                 items.append((L.Sched(conf=c, labels=labels, note=f"{src} size={size} limit={limit}"), cf))
     return items
 
